@@ -649,7 +649,7 @@ def _mk_stft(rng, kind):
             wk = rng.choice(WK_DATA + WK_STREAM + WK_CALL * 2 + WK_BOTH * 4)
             r = rng.random()
             wnd = _mk_wobj(rng, wk, size, eff_hop, num, wsize=(size + rng.choice([-1, 1])) if r < 0.06 else None,
-                           ret_bad=rng.choice(["none", "other"]) if 0.06 <= r < 0.14 and wk in WK_CALL + WK_BOTH else None)
+                           ret_bad=rng.choice(["none", "none", "other"]) if 0.06 <= r < 0.24 and wk in WK_CALL + WK_BOTH else None)
             wa = "obj:" + wk
         else:
             wnd = {"kind": "seq", "w": _rand_wnd(rng, size, num)}
@@ -1046,8 +1046,9 @@ def impl(c):
     if c["entry"] == "ola":
         kw = {"normalize": c["normalize"]} if c.get("normalize_given", True) else {}
         if "norm_spell" in c and "normalize" in kw:
-            kw["normalize"] = _spell(c["norm_spell"])
-            assert bool(kw["normalize"]) == bool(c["normalize"])
+            sp = _spell(c["norm_spell"])
+            if bool(sp) == bool(c["normalize"]):       # (a shrunk / neighbour case may have flipped `normalize`)
+                kw["normalize"] = sp
         if c["size"] is not None:
             kw["size"] = c["size"]
         if c["hop"] is not None:
@@ -1271,6 +1272,12 @@ def _tally_stft(eng, c, io):
         merged.update(dict((k, v) for k, v in d))
     eng.count("stft_ola", {None: "None", "@spy": "spy(list)", "@list": "list"}.get(merged.get("ola", "absent"), "default(numpy)"))
     eng.count("stft_wnd", "none" if merged.get("wnd") is None else c["objs"].get(merged["wnd"], {}).get("wkind", "?"))
+    for key in ("wnd", "ola_wnd"):
+        w = (c["objs"].get(merged.get(key)) or {}).get("wnd") if isinstance(merged.get(key), str) else None
+        if w and w.get("kind") == "obj":
+            eng.count("stft_%s_object" % key, "%s/%s" % (w["wk"], w.get("variant")))
+            if w.get("call"):
+                eng.count("stft_%s_object_call_returns" % key, "+".join(sorted({r["r"] for _, r in w["call"]["table"]})) + " as " + w.get("ret", "list"))
     eng.count("stft_steps_used", sum(1 for r in ("before", "transform", "inverse_transform", "after") if isinstance(merged.get(r), str)))
     eng.count("stft_ola_options", sum(1 for k in merged if k.startswith("ola_")))
     eng.count("stft_n_blocks", min(8, sum(1 for t, _, _ in (io.get("trace") or []) if t == c["func"])))
@@ -1514,6 +1521,8 @@ def neighbours(c):
 def classify(c, io, drv):
     if c["entry"] == "hist":
         return _classify_hist(c, io, drv)
+    if isinstance(io.get("err"), str):
+        return "impl-observation-failed:" + io["err"]
     if c["entry"] == "ola":
         e = io.get("err")
         if e is not None and c["size"] is None and not c["blks"] and e["tag"] == "generator-raised-StopIteration":
